@@ -328,6 +328,8 @@ impl Workload for Renames {
         let Some(mut c) = gen_wt_case(seed, "c18", idx, &cfg(), st) else { return vec![] };
         if idx % 2 == 1 {
             with_trivia(&mut c, seed, "c18", idx);
+        } else if idx % 4 == 0 {
+            with_tight(&mut c);
         }
         st.nontrivial(hash64(&c.sources.files));
         st.sample(|| json!({"sources": c.sources.to_json()}));
@@ -342,6 +344,8 @@ impl Workload for Renames {
         let Some(mut c) = gen_wt_case(seed, "c18", idx, &cfg(), st) else { return vec![] };
         if idx % 2 == 1 {
             with_trivia(&mut c, seed, "c18", idx);
+        } else if idx % 4 == 0 {
+            with_tight(&mut c);
         }
         run_case(&c, seed, idx, st)
     }
